@@ -1,6 +1,8 @@
 import DiffxVerif.Properties.C15
 #print axioms Diffx.C15.C15_newline_spelling
 #print axioms Diffx.C15.C15_guess_spelling
+#print axioms Diffx.C15.C15_read_spelling
+#print axioms Diffx.C15.C15_write_spelling
 #print axioms Diffx.C15.C15_bom_free
 #print axioms Diffx.C15.C15_plain
 #print axioms Diffx.C15.C15_table_adequate
